@@ -4,6 +4,7 @@
 #include <string.h>
 #include <stdlib.h>
 #include <stdint.h>
+#include <execinfo.h>
 
 #define MAXEV 4096
 static san_event_t ev[MAXEV]; static int nev; static int total;
@@ -11,6 +12,7 @@ int san_count(void) { return total; }
 int san_nevents(void) { return nev; }
 const san_event_t *san_event(int i) { return &ev[i]; }
 void san_reset(void) { nev = 0; total = 0; }
+void (*san_fatal_cb)(const san_event_t *e);
 
 #if defined(VARIANT_ASAN)
 const char *__asan_get_report_description(void);
@@ -26,21 +28,19 @@ void __asan_on_error(void) {
 	san_event_t *e = &ev[nev++];
 	memset(e, 0, sizeof *e);
 	snprintf(e->kind, sizeof e->kind, "%s", __asan_get_report_description());
+	if (getenv("VERIF_DEBUG")) fprintf(stderr, "asan hook: kind=%s\n", e->kind);
 	e->is_write = __asan_get_report_access_type();
 	e->size = (int) __asan_get_report_access_size();
 	e->pcs[0] = (uintptr_t) __asan_get_report_pc(); e->npcs = 1;
-	/* frame-pointer walk (library and harness are built with -fno-omit-frame-pointer) */
-	uintptr_t *bp = (uintptr_t *) __asan_get_report_bp();
-	for (int i = 0; i < 24 && bp && e->npcs < SAN_MAXPC; i++) {
-		if (((uintptr_t) bp & 7) != 0) break;
-		uintptr_t ret = bp[1], next = bp[0];
-		if (ret >= (uintptr_t) &__executable_start && ret < (uintptr_t) &etext) e->pcs[e->npcs++] = ret;
-		if (next <= (uintptr_t) bp || next - (uintptr_t) bp > (1u << 20)) break;
-		bp = (uintptr_t *) next;
-	}
+	/* call stack of the reporting thread (unwinder; the interceptors' own frames are skipped by the symbol filter later) */
+	void *bt[40]; int nb = backtrace(bt, 40);
+	for (int i = 0; i < nb && e->npcs < SAN_MAXPC; i++) { uintptr_t pc = (uintptr_t) bt[i]; if (pc >= (uintptr_t) &__executable_start && pc < (uintptr_t) &etext) e->pcs[e->npcs++] = pc; }
+	/* a deadly signal ends the process right after this hook: report it now */
+	static const char *fatal[] = {"SEGV", "FPE", "ILL", "BUS", "ABRT", "stack-overflow", "null-deref", "wild-jump", "wild-addr", "high-value", "unknown-crash", "signal", NULL};
+	if (san_fatal_cb) for (int i = 0; fatal[i]; i++) if (strstr(e->kind, fatal[i])) { san_fatal_cb(e); break; }
 }
 const char *__asan_default_options(void) {
-	return "halt_on_error=0:detect_leaks=1:symbolize=0:abort_on_error=0:print_summary=0:detect_stack_use_after_return=0:allocator_may_return_null=1:handle_segv=0:handle_abort=0";
+	return "halt_on_error=0:detect_leaks=1:symbolize=0:abort_on_error=0:print_summary=0:detect_stack_use_after_return=0:allocator_may_return_null=1:handle_segv=1:handle_abort=0";
 }
 #endif
 
